@@ -8,11 +8,11 @@ C = {
          "all (thorough) / sampled (quick) interleavings of 2-3 registration scripts incl. closes at every position, with and without server password; sub-command windows are C18's", "4 C02"),
  "C03": ("fault_enumeration", "E4 gate", "exhaustive command-sequence enumeration on fresh connections against a reference automaton (all words to length 3/4, capability cores, pairs of CAP sub-commands, password cores incl. repeated and near-miss PASS), observer client and snapshot equality",
          "every sequence up to length 3 (quick) / 4 (thorough) over the reduced alphabet x 4 configurations is run; longer sequences and the full alphabet are sampled", "4 C03"),
- "C04": ("exploration", "E1 seqdiff", "reference-model differential monitoring; NAMES/WHO/WHOIS probes between visibility bounds; rosters reconstructed from announcements; snapshot invariants I1/I2; rename storms with roster check",
+ "C04": ("exploration", "E1 seqdiff", "reference-model differential monitoring; NAMES/WHO/WHOIS probes between visibility bounds; rosters reconstructed from announcements; snapshot invariants I1/I2; rename / first-join / quit-flood storms with roster check; stuck-session cases (the nickname's new owner stays a member); long-names scenario",
          "membership relation compared with the model after every step of generated histories; three views probed from members and outsiders", "4 C04"),
- "C05": ("exploration", "E7 fuzz + E1", "grammar+mutation fuzzing of the running server with handler-abort sentinel, EOF classifier, bystander liveness, ghost check; hostile E1 histories; stalled-reader and leaving-member floods; Rust debug-profile runtime checks; ASan, release and valgrind-memcheck legs at thorough",
+ "C05": ("exploration", "E7 fuzz + E1", "grammar+mutation fuzzing of the running server with handler-abort sentinel, EOF classifier, bystander liveness, ghost check; hostile E1 histories; stalled-reader and leaving-member floods; pipelined queries against pipelined writers (W14, diagnosed time-outs); Rust debug-profile runtime checks; ASan, release and valgrind-memcheck legs at thorough",
          "tens of thousands (quick) to millions (thorough) of hostile lines in 12 session states; the input space is unbounded, so this is sampling", "4 C05"),
- "C06": ("fault_enumeration", "E1 inject", "fault enumeration: each of 10 endings injected at every (sampled) position of seeded histories, model + snapshot restricted to survivors, re-registration and WHOWAS probes; sessions stuck behind unread output ended by KILL/close/reset; long WHOWAS history scenario",
+ "C06": ("fault_enumeration", "E1 inject", "fault enumeration: each of 10 endings injected at every (sampled) position of seeded histories, model + snapshot restricted to survivors, re-registration and WHOWAS probes; sessions stuck behind unread output ended by KILL/close/reset; ping-timeout endings of users with ranks, channels, modes and invitations (snapshot = before minus them); long WHOWAS history scenario",
          "positions x endings of seeded histories are enumerated (all in thorough, a rotating subset in quick); histories themselves are sampled", "4 C06"),
  "C07": ("exploration", "E1 seqdiff", "reference-model differential monitoring with the reference glob; truth-vector coverage accounting",
          "JOIN decisions compared with the conjunction of the statement on generated channel states; evidence lists which truth vectors were seen", "4 C07"),
@@ -20,7 +20,7 @@ C = {
          "every acting rank x letter x sign x target rank class reached by the generator is checked for effect, announcement and refusal", "4 C08"),
  "C09": ("exploration", "E1 seqdiff", "reference-model differential monitoring of KICK/TOPIC/INVITE; deterministic rank matrix (8 rank sets x 9 victims)", "actor rank x victim rank cases of generated histories", "4 C09"),
  "C10": ("exploration", "E1 seqdiff", "reference-model differential monitoring of the send decision; NOTICE must draw no numeric", "condition vectors (member, voiced, +n, +s, +m, banned, excepted) reached by generated histories", "4 C10"),
- "C11": ("exploration", "E1 seqdiff", "reference-model differential monitoring with privilege as a derived variable of the history; DIE/SQUIT observed at episode end", "generated histories under 6 operator/default-mode configurations", "4 C11"),
+ "C11": ("exploration", "E1 seqdiff", "reference-model differential monitoring with privilege as a derived variable of the history; DIE/SQUIT observed at episode end; repeated KILL of a session stuck behind its own output", "generated histories under 6 operator/default-mode configurations", "4 C11"),
  "C12": ("exploration", "E1t twin", "runtime self-composition: normalised observer transcripts of two worlds differing only in the hidden part must be equal (observers incl. ones refused at the door; hidden users incl. predefined accounts)", "hundreds (quick) / thousands (thorough) of generated world pairs x 10-18 query forms; implementation-agnostic oracle", "4 C12"),
  "C13": ("exploration", "E3 pure + framing + E1 noise", "differential testing of the live parser/serialiser against an independent reference grammar (exhaustive small alphabet + random), wire framing driver (segments, lengths, verb x arity, invalid parameters, rejected lines sent alone), metamorphic serialisation twins on E1 incl. parameters beyond a verb's maximum; Miri at thorough",
          "exhaustive over a 5-letter alphabet to length 6 (8 thorough); the rest sampled", "4 C13"),
@@ -28,10 +28,10 @@ C = {
          "exhaustive for patterns/texts up to length 5 (6 thorough) over small alphabets; long pairs sampled", "4 C14"),
  "C15": ("exploration", "E1 seqdiff", "reference-model differential monitoring of NICK; snapshot compares every nick-keyed container (I2, I3, I6)", "rich user states x new-nick classes of generated histories", "4 C15"),
  "C16": ("exploration", "E1 seqdiff", "reference-model differential monitoring incl. preconfigured channels under generated configurations; invariant I5", "create/empty/recreate cycles under generated configurations of predefined channels", "4 C16"),
- "C17": ("exploration", "E5 clock", "timestamped event-log monitoring with bounded-progress rules under second-scale timeouts and scripted responder patterns; harness lag measured", "3 (quick) / 7 (thorough) timeout configurations x 17 client behaviours in real time", "4 C17"),
- "C18": ("exploration", "E2 storm", "concurrent stress with jitter hook; offline history checkers: unique winner (claims, renames behind a lock holder), capacity, total-order reconstruction, per-(sender,receiver) FIFO, no-loss under leaving members, bounded progress for bystanders of a stalled reader and for a backlogged receiver's own commands, one-state multi-line query answers, stuck-session endings, quiescent invariants; server diagnosis on time-outs",
+ "C17": ("exploration", "E5 clock", "timestamped event-log monitoring with bounded-progress rules under second-scale timeouts and scripted responder patterns (incl. fragments, split / surplus / double answers, a handler kept busy across the deadline); harness lag measured; clean-up of timed-out users with attachments", "3 (quick) / 7 (thorough) timeout configurations x 27 client behaviours in real time", "4 C17"),
+ "C18": ("exploration", "E2 storm", "concurrent stress with jitter hook; offline history checkers: unique winner (claims, renames behind a lock holder), capacity, total-order reconstruction, per-(sender,receiver) FIFO, no-loss under leaving members, bounded progress for bystanders of a stalled reader and for a backlogged receiver's own commands, one-state multi-line query answers, one announcement sequence for many writers of one attribute (W13), queries against writers (W14), mutually exclusive commands (W15), stuck-session endings, quiescent invariants; server diagnosis on time-outs",
          "hundreds of storm rounds; only schedules the OS and the jitter hook produce; specific linearizability consequences, not a full linearizability search", "4 C18"),
- "C19": ("exploration", "E1 seqdiff + slots", "reference-model differential monitoring of LUSERS/ISON/USERHOST with counter recount (I4, I8) under default-mode / account / quota configurations; connection-slot driver", "generated histories + slot rounds for max_connections in {1,2,5}", "4 C19"),
+ "C19": ("exploration", "E1 seqdiff + slots", "reference-model differential monitoring of LUSERS/ISON/USERHOST with counter recount (I4, I8) under default-mode / account / quota configurations; connection-slot driver; multi-line query storms; stuck-session cases", "generated histories + slot rounds for max_connections in {1,2,5}", "4 C19"),
  "C20": ("exploration", "E6 boot", "process-level monitoring: start-up with mutated configuration files vs a reference validator; documentation-driven perturbation of every key of config-example.toml under a fixed probe; hash round trip incl. passwords ending in blanks; CLI overrides incl. invalid and repairing ones; keep-alive timing probe; account and default-mode effect probes; plain/TLS twin transcripts",
          "one mutation per documented validation rule and per documented key; TLS twin on one 30-step script", "4 C20"),
 }
@@ -58,7 +58,7 @@ m = {
            "source_commits": ["c502e66"], "add_only": True},
  "engines": [
    {"name": "E1 seqdiff", "path": "sircv/world.py sircv/model.py sircv/gen.py sircv/e1.py sircv/invariants.py", "serves_properties": ["C01","C02","C04","C05","C06","C07","C08","C09","C10","C11","C13","C14","C15","C16","C19"], "kind_free_text": "sequential differential monitor: real server over TCP, barrier protocol, reference model, snapshot invariants"},
-   {"name": "E2 storm", "path": "sircv/storm.py sircv/stuck.py", "serves_properties": ["C01","C02","C04","C05","C06","C15","C18"], "kind_free_text": "concurrent stress + history checkers"},
+   {"name": "E2 storm", "path": "sircv/storm.py sircv/stuck.py sircv/idleout.py", "serves_properties": ["C01","C02","C03","C04","C05","C06","C07","C08","C09","C11","C15","C16","C17","C18","C19"], "kind_free_text": "concurrent stress + history checkers"},
    {"name": "E3 pure", "path": "pure/ sircv/pure.py", "serves_properties": ["C13","C14","C20"], "kind_free_text": "Rust #[path] harness over the live sources, reference grammar/glob, catch_unwind, Miri"},
    {"name": "E4 gate/own", "path": "sircv/gate.py", "serves_properties": ["C02","C03"], "kind_free_text": "registration state-machine explorer and ownership interleaving explorer"},
    {"name": "E5 clock", "path": "sircv/clock.py", "serves_properties": ["C17"], "kind_free_text": "keep-alive event-log monitor"},
